@@ -52,7 +52,8 @@ Universe ==
                     Fd("serial", N0, "ID"), Fd("owner", N0, "Person")>>,
                   {"Node"}, <<>>, <<>>),
     Cat    |-> Ty("OBJECT",
-                  <<Fd("name", N0, "String"), Fd("lives", NR, "Int"), Fd("owner", N0, "Person")>>,
+                  \* (Cat narrows the nullability of the interface field: Named.name is nullable)
+                  <<Fd("name", NR, "String"), Fd("lives", NR, "Int"), Fd("owner", N0, "Person")>>,
                   {"Named"}, <<>>, <<>>),
     Pet    |-> Ty("UNION", <<>>, {}, <<"Cat", "Robot">>, <<>>),
     Any    |-> Ty("UNION", <<>>, {}, <<"Person", "Robot", "Cat">>, <<>>),
